@@ -226,18 +226,7 @@ func checkC06(c *Ctx, r *Report) {
 		"every declared parameter is reduced and kept, in order")
 	routeT := w.lookupType("definitions", "RouteMetadata")
 	ruleFieldFlow(c, r, ffSpec{Clause: "C06.a", Fn: rred, Owner: routeT, Field: "FuncParams", Must: []string{"core/metadata.ReceiverMeta.Params"}, AllowedFields: []string{"*"}, AllowedCalls: []string{"*"}, Desc: "RouteMetadata.FuncParams is the reduced parameter list"})
-	ruleEach(c, r, "C06.a", "(*core/arbitrators.AstArbitrator).GetFuncParametersMeta",
-		func(fi *FuncInfo) func(ast.Expr) bool {
-			return func(e ast.Expr) bool { return strings.HasSuffix(exprString(e), ".Type.Params.List") }
-		}, "funcDecl.Type.Params.List",
-		func(fi *FuncInfo) func(ast.Node) bool {
-			return w.callPred(fi, "(core/arbitrators.FieldVisitor).VisitField")
-		}, "VisitField", nil, true,
-		"every declared parameter field is visited (in AST order; only exit: error)")
-	ruleEach(c, r, "C06.a", "(*core/arbitrators.AstArbitrator).GetFuncParametersMeta",
-		func(fi *FuncInfo) func(ast.Expr) bool { return w.rangeOverType(fi, "[]core/metadata.FieldMeta") }, "fields (names of one parameter field)",
-		func(fi *FuncInfo) func(ast.Node) bool { return w.appendTo(fi, w.resultSlice(fi)) }, "append(params)", nil, false,
-		"every name of a parameter field yields one FuncParam, in order")
+	checkEveryDeclaredParamKept(c, r, "C06.a")
 
 	// responses producers
 	ruleFieldFlow(c, r, ffSpec{Clause: "C06.e", Fn: rred, Owner: routeT, Field: "ResponseSuccessCode", MustCalls: []string{"core/metadata.GetResponseStatusCodeAndDescription"}, AllowedFields: []string{"*"}, AllowedCalls: []string{"builtin.len"}, Desc: "success code comes from GetResponseStatusCodeAndDescription(annotations, hasReturnValue)"})
@@ -853,4 +842,23 @@ func (w *World) responseSetSites(fi *FuncInfo, pkgRel string) (succ, errs ssa.In
 		}
 	})
 	return
+}
+
+// checkEveryDeclaredParamKept: every name of every parameter field of the method's declaration
+// becomes one FuncParam (shared with C10.d: the link validator reports an unreferenced parameter
+// only for parameters that are in ReceiverMeta.Params).
+func checkEveryDeclaredParamKept(c *Ctx, r *Report, clause string) {
+	w := c.W
+	ruleEach(c, r, clause, "(*core/arbitrators.AstArbitrator).GetFuncParametersMeta",
+		func(fi *FuncInfo) func(ast.Expr) bool {
+			return func(e ast.Expr) bool { return strings.HasSuffix(exprString(e), ".Type.Params.List") }
+		}, "funcDecl.Type.Params.List",
+		func(fi *FuncInfo) func(ast.Node) bool {
+			return w.callPred(fi, "(core/arbitrators.FieldVisitor).VisitField")
+		}, "VisitField", nil, true,
+		"every declared parameter field is visited (in AST order; only exit: error)")
+	ruleEach(c, r, clause, "(*core/arbitrators.AstArbitrator).GetFuncParametersMeta",
+		func(fi *FuncInfo) func(ast.Expr) bool { return w.rangeOverType(fi, "[]core/metadata.FieldMeta") }, "fields (names of one parameter field)",
+		func(fi *FuncInfo) func(ast.Node) bool { return w.appendTo(fi, w.resultSlice(fi)) }, "append(params)", nil, false,
+		"every name of a parameter field yields one FuncParam, in order")
 }
